@@ -136,9 +136,10 @@ def check_log_file(ctx):
               "errors are cleared only when paranoid_checks is off", "ldb_maybe_ignore_error clears errors in paranoid mode")
     # short records are reported, not applied
     sc = one_call(ctx, f, "ldb_batch_set_contents")[0]
-    ctx.check(holds(g.must_at(sc[0], sc[1]), (">=", "record.size", 12)), "T2-replay-record-size", "12", f.name,
-              site(f, sc[2]), "a log record shorter than a batch header is not applied",
-              "short log records are applied")
+    from ..rules import holds_exact
+    ctx.check(holds_exact(g.must_at(sc[0], sc[1]), (">=", "record.size", 12)), "T2-replay-record-size", "12", f.name,
+              site(f, sc[2]), "a log record is applied iff it holds at least the 12-byte batch header (an empty batch is legal)",
+              "the size guard of replayed log records is not `size >= 12`: %s" % fmt_atoms(g.must_at(sc[0], sc[1])))
     rd = one_call(ctx, f, "ldb_reader_init")[0][2]
     ctx.check(const_val(rd["a"][3]) not in (None, 0), "T2-replay-checksum", "reader_init", f.name, site(f, rd),
               "log replay verifies checksums", "log replay created with checksum verification off")
@@ -156,3 +157,4 @@ def check(ctx):
     c17.check_current(ctx)
     c17.check_snapshot(ctx)    # the MANIFEST every open writes afresh re-emits every file of every level
     c02.check_tables(ctx)      # a table built during replay is durable before its log is given up
+    c02.check_env(ctx)         # "durable" means: directory entry, buffered bytes and file contents reached the device
